@@ -17,7 +17,8 @@ grep "^VIOLATION" /tmp/eval_$NAME.log | head -3
 REPLAY=$(grep "^VIOLATION" /tmp/eval_$NAME.log | head -1 | sed 's/.*replay=\([^ ]*\).*/\1/')
 WHAT=""
 [ -n "$REPLAY" ] && [ -f "/verif/$REPLAY" ] && WHAT=$(/venv/bin/python -c "import json;d=json.load(open('/verif/$REPLAY'));print((d.get('what') or str([b['name'] for b in d.get('broken',[])][:4]))[:300].replace('\"',\"'\"))")
-cat > /verif/seeded/$NAME/eval.json <<EOT
+EVF=eval.json; [ "$P" != "${NAME%%_*}" ] && EVF=eval_$P.json
+cat > /verif/seeded/$NAME/$EVF <<EOT
 {"property": "$P", "check": "harness/vcheck.py $P --tier ${TIER:-quick} (NIFTY_REPO=scratch worktree with the patch)", "seed": ${VERIF_SEED:-0},
  "exit_code": $RC, "violation_lines": $VIOL, "no_failing_input_found": $NFI, "detected": $([ $RC -eq 1 ] && echo true || echo false),
  "first_replay_says": "$WHAT", "wall_s": $((T1-T0))}
